@@ -2113,11 +2113,13 @@ class Client:
         for _ in range(0, max_packets):
             if self._sock is None:
                 return MQTTErrorCode.MQTT_ERR_NO_CONN
+            sock = self._sock
             rc = self._packet_read()
             if rc > 0:
-                if self._sock is None:
+                if self._sock is not sock:
                     # a write made while handling the packet already failed, closed the
-                    # socket and reported it through on_disconnect
+                    # socket and reported it through on_disconnect (whose callback may even
+                    # have opened a new connection)
                     return rc
                 return self._loop_rc_handle(rc)
             elif rc == MQTTErrorCode.MQTT_ERR_AGAIN:
